@@ -654,12 +654,22 @@ fn classic_fault_cases() -> Vec<(TreeSpec, Op)> {
     ]
 }
 
-pub fn suite_fault(ctx: &mut Ctx, seed: u64, n: usize, per_case: usize) {
+/// the result line of a case text (`res ...`)
+fn res_of(text: &str) -> String {
+    text.lines().find(|l| l.starts_with("res ")).unwrap_or("res ?").to_string()
+}
+
+pub fn suite_fault(ctx: &mut Ctx, seed: u64, n: usize, per_case: usize, only_case: Option<usize>, aftermath_each: bool) {
     let mut rng = Rng::new(seed);
     let classics = classic_fault_cases();
     for i in 0..n {
         let mut crng = rng.fork();
         let case_seed = crng.0;
+        if let Some(o) = only_case {
+            if o != i {
+                continue;
+            }
+        }
         let classic = i < classics.len();
         let (spec, op) = if classic {
             classics[i].clone()
@@ -677,6 +687,7 @@ pub fn suite_fault(ctx: &mut Ctx, seed: u64, n: usize, per_case: usize) {
             let cc = CaseCtx { spec: &spec, op: &op, emulated: emu, rflags, seed: case_seed };
             let b = if emu { "e" } else { "k" };
             let (text, ncalls, _) = run_one(ctx, &cc, &format!("{i}{b}-base"), "fault", "fault none\n", &mut no_interposer, true);
+            let base_res = res_of(&text);
             ctx.out.write_all(text.as_bytes()).unwrap();
             let mut grid: Vec<Fault> = Vec::new();
             for k in 0..ncalls {
@@ -716,7 +727,22 @@ pub fn suite_fault(ctx: &mut Ctx, seed: u64, n: usize, per_case: usize) {
                 };
                 let (text, _, _) = run_one(ctx, &cc, &id, "fault", &extra, &mut mk, true);
                 ctx.out.write_all(text.as_bytes()).unwrap();
+                if aftermath_each {
+                    // search mode: the same operation again, without a fault, after every faulted run
+                    let (atext, acalls, _) = run_one(ctx, &cc, &format!("{id}-after"), "fault",
+                        &format!("fault none\naftermath of={id} base_calls={ncalls} {}\n", extra.trim().replace(' ', "_")),
+                        &mut no_interposer, true);
+                    if res_of(&atext) != base_res || acalls != ncalls {
+                        ctx.out.write_all(atext.as_bytes()).unwrap();
+                        return;
+                    }
+                }
             }
+            // aftermath: a failed call must not leave anything behind in the process — the same operation on
+            // the same tree without any fault behaves exactly as it did before the faults
+            let (atext, _, _) = run_one(ctx, &cc, &format!("{i}{b}-after"), "fault",
+                &format!("fault none\naftermath of={i}{b}-sweep base_calls={ncalls}\n"), &mut no_interposer, true);
+            ctx.out.write_all(atext.as_bytes()).unwrap();
         }
     }
 }
